@@ -127,6 +127,8 @@ type task struct {
 	// second pass: plain-memory access sites that are scheduling points; only
 	// choices at those points are explored (each costs one unit of PB)
 	Mem []string `json:"mem,omitempty"`
+	// absolute wall-clock deadline of the whole run (unix nanoseconds, 0 = none)
+	Deadline int64 `json:"deadline,omitempty"`
 	// enumerator
 	Lo, Hi int
 }
@@ -437,8 +439,8 @@ func workerLoop(h *Harness, en *Enum) {
 			ex.stop = false
 			ex.maxViol = *flagMaxViol
 			ex.deadline = time.Time{}
-			if *flagBudget > 0 {
-				ex.deadline = time.Now().Add(time.Duration(*flagBudget * float64(time.Second)))
+			if t.Deadline > 0 {
+				ex.deadline = time.Unix(0, t.Deadline)
 			}
 			fmt.Fprintf(os.Stderr, "J %d %d %v\n", t.Scn, t.PB, t.Prefix)
 			if t.Single {
@@ -519,7 +521,12 @@ func startWorker(budget float64) (*worker, error) {
 	return &worker{cmd: cmd, in: in, out: json.NewDecoder(bufio.NewReaderSize(outp, 1<<20)), errb: tb}, nil
 }
 
+var runDeadline time.Time
+
 func (w *worker) do(t task) (*reply, error) {
+	if !runDeadline.IsZero() && t.Deadline == 0 {
+		t.Deadline = runDeadline.UnixNano()
+	}
 	b, _ := json.Marshal(t)
 	if _, err := w.in.Write(append(b, '\n')); err != nil {
 		return nil, err
@@ -627,6 +634,7 @@ func Main(h *Harness) {
 	var deadline time.Time
 	if *flagBudget > 0 {
 		deadline = t0.Add(time.Duration(*flagBudget * float64(time.Second)))
+		runDeadline = deadline
 	}
 	workers := make([]*worker, 0, procs)
 	if t, err := shmCreate(*flagShmBits); err == nil {
@@ -884,6 +892,10 @@ scnLoop:
 			want := procs * 24
 			crashed := false
 			for len(frontier) > 0 && len(frontier) < want && agg.Execs < 400 {
+				if !deadline.IsZero() && time.Now().After(deadline) {
+					agg.TimedOut = true
+					break
+				}
 				p := frontier[0]
 				frontier = frontier[1:]
 				r, err := w0.do(task{Scn: si, PB: pb, Prefix: p, Single: true, Epoch: epoch, Mem: mem})
@@ -904,7 +916,7 @@ scnLoop:
 				}
 			}
 			// Phase 2: hand subtrees to the worker pool.
-			if !crashed && len(agg.Viol) == 0 && len(frontier) > 0 && (!sc.Single || mem != nil) {
+			if !crashed && len(agg.Viol) == 0 && len(frontier) > 0 && (!sc.Single || mem != nil) && !agg.TimedOut {
 				var mu sync.Mutex
 				next := 0
 				var wg sync.WaitGroup
